@@ -50,6 +50,8 @@ def run(prog, R, tier="quick", only_rule=None):
     from rules.props import c06
     c06.c06j(prog, R, rid="C01.n")
     c06.c06l(prog, R, rid="C01.o")
+    from rules.props import c02 as _c02
+    _c02.c02f(prog, R, rid="C01.p")
 
 
 def c01a(prog, R):
